@@ -122,8 +122,8 @@ def oracle_baseline(args, ts, vals, rows, warns):
                 ref = prior[-1]
         target = ref - md * DAY
         cand = [t for t in ts if t <= end]
-        best = min(cand, key=lambda t: (abs(t - target), -t))
-        if out_t[0] != best:
+        best = min(cand, key=lambda t: (abs(t - target), -t)) if cand else None   # no candidate: rows_after_requested_end fired
+        if cand and out_t[0] != best:
             fails.append(("not_nearest_period_boundary", dict(target=target, first=out_t[0], nearest=best)))
     # contiguous slice of the input, values unchanged apart from the blanked final row
     if out_t:
@@ -167,8 +167,8 @@ def oracle_reporting(args, ts, vals, rows, warns):
         elif out_t:
             target = ref + md * DAY
             cand = [t for t in ts if t >= start]
-            best = min(cand, key=lambda t: (abs(t - target), -t))
-            if out_t[-1] != best:
+            best = min(cand, key=lambda t: (abs(t - target), -t)) if cand else None   # no candidate: rows_before_requested_start fired
+            if cand and out_t[-1] != best:
                 fails.append(("not_nearest_period_boundary", dict(target=target, last=out_t[-1], nearest=best)))
     if out_t:
         if out_t[0] not in ts:
@@ -199,7 +199,11 @@ def run_case(case):
     before = data.copy(deep=True)
 
     def T(x):
-        return None if x is None else pd.Timestamp(x, unit="s", tz="UTC").tz_convert(tz)
+        # the limits are INSTANTS: they may be written in another zone than the data (same instant, other offset)
+        if x is None:
+            return None
+        t = pd.Timestamp(x, unit="s", tz="UTC").tz_convert(case.get("limit_tz") or tz)
+        return t.to_pydatetime() if case.get("limit_py") else t
     try:
         if which == "baseline":
             out, w = get_baseline_data(data, start=T(a["start"]), end=T(a["end"]), max_days=a["max_days"],
@@ -259,13 +263,16 @@ def gen_case(rng):
         a.update(start=cut, end=other)
         a["n_days"] = None
     return dict(which=which, args=a, ts=ts, vals=vals, kind=kind,
-                tz=rng.choice(["UTC", "America/Los_Angeles", "Asia/Kolkata"]), frame=rng.random() < 0.4)
+                tz=rng.choice(["UTC", "America/Los_Angeles", "Asia/Kolkata"]), frame=rng.random() < 0.4,
+                limit_tz=rng.choice([None, None, None, "UTC", "America/Chicago", "Australia/Sydney", "Asia/Kolkata"]),
+                limit_py=rng.random() < 0.2)
 
 
 def signature(case, extra):
     a = case["args"]
     return (case["which"], case["kind"], a["max_days"] is None, a["overshoot"], a["ignore_gap"], a["n_days"] is None,
-            extra.get("error"), tuple(extra.get("warnings", [])), case["frame"])
+            extra.get("error"), tuple(extra.get("warnings", [])), case["frame"],
+            "same_zone" if (case.get("limit_tz") or case["tz"]) == case["tz"] else "other_zone", bool(case.get("limit_py")))
 
 
 def classify(case, fail, findings):
